@@ -349,7 +349,8 @@ func (r *replayer) Delete(key []byte) {
 // - the given seek position
 func bytesPrefixRange(prefix, start []byte) *util.Range {
 	r := util.BytesPrefix(prefix)
-	r.Start = append(r.Start, start...)
+	// r.Start aliases the caller's prefix: copy it, an append may otherwise write into the caller's buffer
+	r.Start = append(append([]byte(nil), r.Start...), start...)
 	return r
 }
 
